@@ -314,7 +314,7 @@ impl<K: HKey> Session<K> {
             ["len"] => format!("{}", cas!().read_index_state().len()),
             ["mem"] => {
                 let c = cas!();
-                format!("next={} persisted={} intents={}", c.verif_next_op_version(), c.verif_last_persisted_version(), c.verif_intents().len())
+                format!("next={} persisted={} intents={} protected={}", c.verif_next_op_version(), c.verif_last_persisted_version(), c.verif_intents().len(), c.verif_protected().len())
             }
             ["conc", policy, progs @ ..] => {
                 let cas = cas!();
@@ -369,7 +369,7 @@ fn run_session<K: HKey>(dir: PathBuf, cfgline: String, fsio: &Fsio, lines: &mut 
             ["failnext", k] => {
                 fsio.reset_counter();
                 fsio.set_fail_at(k.parse::<i64>().unwrap() + 1);
-                armed = Some("nofault");
+                armed = Some("fault");
                 "armed".to_string()
             }
             ["rawtrace"] => {
@@ -391,6 +391,8 @@ fn run_session<K: HKey>(dir: PathBuf, cfgline: String, fsio: &Fsio, lines: &mut 
                     let hit = fsio.counter();
                     fsio.set_kill_at(0);
                     fsio.set_fail_at(0);
+                    // under an injected fault only the error/ok distinction is compared
+                    let r = if tag == "fault" && r.starts_with("err") { "err".to_string() } else { r };
                     format!("{tag} events={hit} {r}")
                 } else { r }
             }
